@@ -781,10 +781,19 @@ where
     while let Some((datafile_index, datafile_entry)) = datafile_iter.next::<DataFileEntry>()? {
         match datafile_entry.value {
             // Tombstone
-            None => stats
-                .entry(fileid)
-                .or_default()
-                .add_dead(datafile_index.len),
+            None => {
+                stats
+                    .entry(fileid)
+                    .or_default()
+                    .add_dead(datafile_index.len);
+                // The key was deleted, forget the value it had before
+                if let Some((_, prev_keydir_entry)) = keydir.remove(&datafile_entry.key) {
+                    stats
+                        .entry(prev_keydir_entry.fileid)
+                        .or_default()
+                        .overwrite(prev_keydir_entry.len);
+                }
+            }
             Some(_) => {
                 let keydir_entry = KeyDirEntry {
                     fileid,
